@@ -11,7 +11,7 @@ from collections import Counter
 
 # Clauses that are filed under another property's name but are also part of this property's statement.
 ALSO = {
-    "C02": ("C03.cb_completes",),
+    "C02": ("C03.cb_completes", "C03.cancel_cb_iff"),  # "its callbacks fire"
     "C03": ("C02.end_cb_once", "C11.cb_id"),
     "C04": ("C10.group_ids", "C11.unique"),
     "C05": ("C11.unique",),
